@@ -31,6 +31,9 @@ type Verdict struct {
 	Reason   string // why not judged / why rejected
 	TipEvent int    // event whose target is the latest entry for the ref
 	Entries  []RefEntry
+	// Offender classifies the entry the model rejects the history for (the first
+	// one in log order): propagation-entry | tag-entry | reference-entry | recovery
+	Offender string
 }
 
 type approvalKey struct {
@@ -183,6 +186,7 @@ func EvalRefFrom(h *scen.History, ref string, startEvent int) Verdict {
 			}
 			v.Accept = false
 			v.Reason = fmt.Sprintf("event %d (propagation entry) unauthorized", e.Event)
+			v.Offender = "propagation-entry"
 			return v
 		}
 		if e.Kind == "tag" {
@@ -207,6 +211,7 @@ func EvalRefFrom(h *scen.History, ref string, startEvent int) Verdict {
 			}
 			v.Accept = false
 			v.Reason = fmt.Sprintf("event %d (tag entry) unauthorized", e.Event)
+			v.Offender = "tag-entry"
 			return v
 		}
 		if !e.HasPolicy {
@@ -221,6 +226,7 @@ func EvalRefFrom(h *scen.History, ref string, startEvent int) Verdict {
 		if !e.Skipped {
 			v.Accept = false
 			v.Reason = fmt.Sprintf("event %d unauthorized and not revoked", e.Event)
+			v.Offender = "reference-entry"
 			return v
 		}
 		// recovery
@@ -246,12 +252,14 @@ func EvalRefFrom(h *scen.History, ref string, startEvent int) Verdict {
 		if fix < 0 {
 			v.Accept = false
 			v.Reason = fmt.Sprintf("event %d revoked but never repaired", e.Event)
+			v.Offender = "recovery"
 			return v
 		}
 		for j := i + 1; j < fix; j++ {
 			if es[j].Kind == "push" && !es[j].Skipped {
 				v.Accept = false
 				v.Reason = fmt.Sprintf("event %d between violation and fix is not revoked", es[j].Event)
+				v.Offender = "recovery"
 				return v
 			}
 		}
